@@ -22,7 +22,7 @@ LEVEL_TEXT = ("Generated validated queries with @defer/@stream (nested, labelled
               "ignores the directives: exact equality when error-free or propagation is disabled, the 'refines' relation otherwise.")
 LEVEL_NOTE = ("trusted: R3 (reference executor), R4 (merge model, vf/ref/incremental.py), the controlled loop; objects are compared unordered (deferred keys legitimately arrive later), lists ordered")
 TECHNIQUE = "runtime monitoring with schedule control: differential oracle (merge model + specification executor) over incremental payload histories"
-RULE = ("requests from G-doc over the rich schema with the three experimental directives added (1/11 of the seeds: over a generated valid schema with those directives added; 4/11: the split-defer, overlapping-defer, list-nested-defer and stream template families, the last with list sources that are mostly async iterators); fault rate in {0, .1, .25} (null, raise, returned exception, wrong shape, list source raising after its items); @experimental_disableErrorPropagation on 30% of the operations; "
+RULE = ("requests from G-doc over the rich schema with the three experimental directives added (1/11 of the seeds: over a generated valid schema with those directives added; 5/11: the split-defer, overlapping-defer, list-nested-defer, shared-fragment and stream template families, the last with list sources that are mostly async iterators); fault rate in {0, .1, .25} (null, raise, returned exception, wrong shape, list source raising after its items); @experimental_disableErrorPropagation on 30% of the operations; "
         "per request 6 (quick) / 10 (thorough) schedules x early execution in {off,on}. Non-trivial: the response was incremental (>= 1 subsequent payload); "
         "distinct = (document, variables, early, interleaving signature).")
 ASSUMPTIONS = ["when the *source* of a streamed list fails after items were delivered, those items cannot be taken back: such runs are judged by the refines relation "
@@ -113,6 +113,27 @@ def stream_doc(rng):
     return f'query Q {{ {body} }}'
 
 
+def shared_fragment_stream_doc(rng):
+    """One named fragment with a streamed (or deferred) selection spread at two places, at one of which the same response
+    key is selected again with other sub-fields: what is memoised for one place must not be served to the other."""
+    leafs = ['name', 'age', 'active', 'role', 'blob', 'id', 'score']
+    a, b, c = rng.sample(leafs, 3)
+    lst = rng.choice(['friends', 'nnFriends'])
+    st = f'@stream(initialCount: {rng.choice([0, 1, 1, 2])})'
+    if rng.random() < 0.75:
+        frag = f'fragment F on User {{ {lst} {st} {{ {a} }} }}'
+        extra = f'{lst} {st} {{ {b} }}'
+    else:
+        frag = f'fragment F on User {{ ... @defer(label: "D") {{ best {{ {a} }} }} {c} }}'
+        extra = f'... @defer(label: "E") {{ best {{ {b} }} }}'
+    p1, p2 = rng.sample(['me', 'nnMe', 'x: me', 'users'], 2)
+    first = f'{p1} {{ ...F {extra} }}' if rng.random() < 0.5 else f'{p1} {{ {extra} ...F }}'
+    second = f'{p2} {{ ...F }}'
+    parts = [first, second]
+    rng.shuffle(parts)
+    return f'query Q {{ {parts[0]} {parts[1]} }} {frag}'
+
+
 _gen_inc = {}
 
 
@@ -136,6 +157,8 @@ def gen_request(seed, p_defer=0.35, p_stream=0.35):
         return schema, list_nested_defer_doc(rng), {}, rng
     if seed % 11 == 6:
         return schema, stream_doc(rng), {}, rng
+    if seed % 11 == 5:
+        return schema, shared_fragment_stream_doc(rng), {}, rng
     if seed % 11 == 8:
         # a generated valid schema (G-schema) with the experimental directives added, instead of the fixed one
         gs = generated_inc_schema((seed * 7919) % 4000)
